@@ -1756,7 +1756,13 @@ def gen_restore_stmt(node, code, codegen):
         target = ''
 
     if target:
-        label_index = code.get_data_label_index(target)
+        # continue with the first DATA statement at or after the label
+        data_parts = codegen.compilation.data_label_parts
+        if target in data_parts:
+            label_index = code.get_data_label_index(data_parts[target])
+        else:
+            # no DATA after the label: the next READ is out of data
+            label_index = len(code._data)
     else:
         # rewind to the very first DATA item
         label_index = 0
